@@ -106,3 +106,126 @@ Definition spec_is_power_event (e : event) : Prop :=
   (e_type e = t_join_rules /\ e_skey e = Some []) \/
   (e_type e = t_member /\ (exists sk, e_skey e = Some sk /\ sk <> [] /\ sk <> e_sender e) /\
    (membership_of e = bs "leave" \/ membership_of e = bs "ban")).
+
+(* ====================================================================================
+   The two orderings, as DESIGN.md 6.2 defines them (executable readings; no in-degree
+   counters, no work list, no insertion sort).
+   ==================================================================================== *)
+
+(* ---------- r2: the sender's power for the power ordering ---------- *)
+Definition first_power_auth (authmap : list event) (e : event) : option event :=
+  hd_error (filter is_power (lookup_ids authmap (e_auth e))).
+
+Definition spec_sender_power (priv : bool) (creator_level users_default0 : Z) (authmap : list event)
+           (resolved_create : option event) (e : event) : Z :=
+  let create := match resolved_create with
+                | Some c => Some c
+                | None => hd_error (filter is_create (lookup_ids authmap (e_auth e)))
+                end in
+  if priv && match create with Some c => mem_bytes (e_sender e) (creators_of c) | None => false end
+  then creator_level
+  else match first_power_auth authmap e with
+       | Some pl => match pl_user_level users_default0 pl (e_sender e) with Some z => z | None => 0%Z end
+       | None => 0%Z
+       end.
+
+(* ---------- r1 / r3: the power ordering of a list without repeated entries ---------- *)
+Definition pitem := (event * Z)%type.
+
+(* a sorts strictly before b: greater power first, then earlier timestamp, then smaller ID *)
+Definition power_before (a b : pitem) : bool :=
+  if (snd b <? snd a)%Z then true
+  else if (snd a <? snd b)%Z then false
+  else if (e_ts (fst a) <? e_ts (fst b))%Z then true
+  else if (e_ts (fst b) <? e_ts (fst a))%Z then false
+  else bytes_ltb (e_id (fst a)) (e_id (fst b)).
+
+Definition named_by_remaining (rem : list pitem) (x : pitem) : bool :=
+  existsb (fun e => mem_bytes (e_id (fst x)) (e_auth (fst e))) rem.
+
+Definition without (x : pitem) (l : list pitem) : list pitem :=
+  filter (fun y => negb (bytes_eqb (e_id (fst y)) (e_id (fst x)))) l.
+
+(* the element that sorts last *)
+Definition last_under (before : pitem -> pitem -> bool) (u : pitem) (us : list pitem) : pitem :=
+  fold_left (fun best y => if before best y then y else best) us u.
+Definition first_under (before : pitem -> pitem -> bool) (u : pitem) (us : list pitem) : pitem :=
+  fold_left (fun best y => if before y best then y else best) us u.
+
+Fixpoint selection_sort (fuel : nat) (before : pitem -> pitem -> bool) (l : list pitem) : list pitem :=
+  match fuel, l with
+  | S f, u :: us => let m := first_under before u us in m :: selection_sort f before (without m l)
+  | _, _ => []
+  end.
+
+(* repeatedly: among the events no remaining event names, the one that sorts last goes last;
+   events that never become unnamed (r3) are sorted by the same key and placed first *)
+Fixpoint spec_power_order (fuel : nat) (rem : list pitem) : list pitem :=
+  match fuel with
+  | O => []
+  | S f =>
+      match filter (fun x => negb (named_by_remaining rem x)) rem with
+      | [] => selection_sort (length rem) power_before rem
+      | u :: us => let x := last_under power_before u us in
+                   spec_power_order f (without x rem) ++ [x]
+      end
+  end.
+
+(* ---------- r4: the mainline key ---------- *)
+(* the mainline: the resolved power-levels event, the power-levels event it names, and so on *)
+Fixpoint spec_mainline_chain (fuel : nat) (authmap : list event) (e : event) : list event :=
+  match fuel with
+  | O => [e]
+  | S f => e :: match first_power_auth authmap e with
+                | Some p => spec_mainline_chain f authmap p
+                | None => []
+                end
+  end.
+
+(* position counted from the oldest end *)
+Fixpoint chain_position (k : bytes) (chain : list event) : option Z :=
+  match chain with
+  | [] => None
+  | x :: r => if bytes_eqb k (e_id x) then Some (Z.of_nat (length r)) else chain_position k r
+  end.
+
+(* (position of the closest mainline ancestor along power-levels auth events, number of
+   non-mainline power-levels events passed on the way); no mainline ancestor: position 0 *)
+Fixpoint spec_closest_mainline (fuel : nat) (authmap chain : list event) (e : event) (steps : Z) : Z * Z :=
+  match fuel with
+  | O => (0%Z, steps)
+  | S f => match first_power_auth authmap e with
+           | None => (0%Z, steps)
+           | Some p => match chain_position (e_id p) chain with
+                       | Some k => (k, steps)
+                       | None => spec_closest_mainline f authmap chain p (steps + 1)%Z
+                       end
+           end
+  end.
+
+Definition mainline_key (authmap : list event) (resolved_power : option event) (e : event) : Z * Z :=
+  let chain := match resolved_power with
+               | Some p => spec_mainline_chain (length authmap) authmap p
+               | None => []
+               end in
+  spec_closest_mainline (S (length authmap)) authmap chain e 0%Z.
+
+(* a comes no later than b under (position, steps, timestamp, ID) *)
+Definition mainline_le (ka kb : Z * Z) (a b : event) : bool :=
+  if (fst ka <? fst kb)%Z then true else if (fst kb <? fst ka)%Z then false
+  else if (snd ka <? snd kb)%Z then true else if (snd kb <? snd ka)%Z then false
+  else if (e_ts a <? e_ts b)%Z then true else if (e_ts b <? e_ts a)%Z then false
+  else bytes_leb (e_id a) (e_id b).
+
+Fixpoint sorted_by_mainline (authmap : list event) (resolved_power : option event) (l : list event) : bool :=
+  match l with
+  | a :: ((b :: _) as r) =>
+      mainline_le (mainline_key authmap resolved_power a) (mainline_key authmap resolved_power b) a b
+      && sorted_by_mainline authmap resolved_power r
+  | _ => true
+  end.
+
+(* the definitions above follow THE power-levels auth event of an event; an event naming
+   several (outside every property's domain) is not covered *)
+Definition at_most_one_power_auth (authmap : list event) (l : list event) : bool :=
+  forallb (fun e => Nat.leb (length (filter is_power (lookup_ids authmap (e_auth e)))) 1) l.
